@@ -71,6 +71,50 @@ def iter_job(e, p):
     return {'kind': kind, 'L': L, 'undecided': k, 'items': len(items), 'first': sigs[:3]}
 
 
+def long_job(e, p):
+    """vectors with 63..130 undecided positions: the full enumeration is out of reach, but construction and the first items are not
+    (counters kept in a machine word overflow exactly here).  Two entries are symbolic, the others undecided concrete handles."""
+    L = p['L']; kind = p['kind']
+    xs = [z3.BitVec('t0', 64), z3.BitVec('t1', 64)]
+    vec = [T(xs[0])] + [T(5 + i) for i in range(L - 2)] + [T(xs[1])]
+    vals = lambda m: [mint(m, xs[0])] + [5 + i for i in range(L - 2)] + [mint(m, xs[1])]
+    def on_panic(e_, msg):
+        m = sat_model(e_, True)
+        if m is not None: report(e_, 'panic', what='%s iterator panics on a vector of length %d: %s' % (kind, L, msg[:150]), vec=vals(m), iter=kind, long=True)
+    e.hooks['on_panic'] = on_panic; e.hooks['on_bound'] = on_panic
+    ty = KINDS[kind]
+    it = e.call('adf::%s::new' % ty, [SliceRef(vec, 0, len(vec))]); cell = Ref([it], 0)
+    nxt = e.resolve('<adf::%s as Iterator>::next' % ty)
+    items = []
+    for _ in range(p['items']):
+        r = e.call_mir(nxt, [cell])
+        if r.v == 'None': break
+        items.append([tv(x) for x in r.f[0].items])
+    und0 = sat_model(e, z3.ULE(xs[0], 1)) is None; und1 = sat_model(e, z3.ULE(xs[1], 1)) is None
+    k = L - 2 + int(und0) + int(und1)
+    probs = []
+    if len(items) < p['items']: probs.append('stops after %d items although 2^%d / 3^%d exist' % (len(items), k, k))
+    sigs = set()
+    for it_ in items:
+        if len(it_) != L: probs.append('item of wrong length'); continue
+        sig = []
+        for i, v in enumerate(it_):
+            orig = vec[i].f[0]
+            if is_sym(v) or is_sym(orig):
+                same = sat_model(e, (v if is_sym(v) else z3.BitVecVal(v, 64)) != (orig if is_sym(orig) else z3.BitVecVal(orig, 64))) is None
+                if same: sig.append('o'); continue
+                if is_sym(v): probs.append('position %d holds an unrelated value' % i); continue
+            elif v == orig: sig.append('o'); continue
+            if v in (0, 1): sig.append(str(v))
+            else: probs.append('position %d holds %s' % (i, v))
+        sigs.add(''.join(sig))
+    if len(sigs) != len(items): probs.append('an item is repeated among the first %d' % len(items))
+    if kind == 'three' and items and any(ch != 'o' for ch in sorted(sigs)[-1:][0]) and 'o' * L not in sigs: probs.append('first item is not the interpretation itself')
+    if probs:
+        m = sat_model(e, True); report(e, 'wrong-enumeration', what='; '.join(sorted(set(probs))[:3]), vec=vals(m), iter=kind, long=True)
+    return {'kind': kind, 'L': L, 'undecided': k, 'items_inspected': len(items)}
+
+
 def differs_int(a, b):
     if not is_sym(a) and not is_sym(b): return a != b
     return a != b
@@ -100,6 +144,13 @@ def judge(out, vec, kind):
 
 
 def replay(ctx, v):
+    if v.get('long'):
+        out = ctx.native().call({'cmd': 'iter', 'kind': v['iter'], 'vec': [str(x) for x in v['vec']], 'limit': 64})
+        if 'items' not in out: return 'reproduced', out
+        got = [[int(x) for x in it_] for it_ in out['items']]
+        und = [i for i, x in enumerate(v['vec']) if x > 1]
+        ok = len(got) == 64 and len(set(map(tuple, got))) == 64 and all(all((g[i] == v['vec'][i]) or (i in und and g[i] in (0, 1)) for i in range(len(g))) for g in got)
+        return ('not-reproduced' if ok else 'reproduced'), out
     out = ctx.native().call({'cmd': 'iter', 'kind': v['iter'], 'vec': [str(x) for x in v['vec']]})
     probs = judge(out, v['vec'], v['iter'])
     return ('reproduced', {'native_output': out, 'problems': probs}) if probs else ('not-reproduced', {'native_output': out})
@@ -134,8 +185,11 @@ def spec(ctx, tier, seed):
     Ls = range(0, 7) if tier == "quick" else range(0, 9)
     # fuel: the longest run yields 3^L items of L entries; the budget is derived from that (exceeding it would be inconclusive, not a pass)
     jobs = [Job('%s-L%d' % (k, L), 'harness.c20', 'iter_job', {'L': L, 'kind': k}, max_steps=2_000_000 + 400 * L * (3 ** L)) for k in KINDS for L in Ls]
+    for k in KINDS:
+        for L in (63, 64, 65, 130):
+            jobs.append(Job('%s-long-L%d' % (k, L), 'harness.c20', 'long_job', {'L': L, 'kind': k, 'items': 40}, stop_after_violations=10))
     jobs.append(Job('canary', 'harness.c20', 'iter_job', {'L': 2, 'kind': 'two', 'canary': True}, stop_after_violations=1, canary=True))
     return {'jobs': jobs, 'level': 'model_checking', 'assumptions': ASSUMPTIONS, 'allowed_status': ('ok', 'panic', 'bound'),
             'bounds': 'interpretation vectors of length L <= %d; every entry an unconstrained symbolic 64-bit handle, so each path covers all vectors with one '
                       'decided/undecided pattern (3^L patterns: false / true / any handle >= 2)' % max(Ls),
-            'outside': 'vectors longer than %d' % max(Ls)}
+            'outside': 'complete enumeration for vectors longer than %d; for lengths 63, 64, 65 and 130 construction and the first 40 items are checked' % max(Ls)}
